@@ -1675,6 +1675,40 @@ func ruleFramePair(r *Run) {
 			})
 		}
 		r.Floor("E6", "calls of the stored frame cancel", n, 1)
+		// the session's frame worker is stopped only where the session ends: by the store when it unregisters
+		// the session, and by the leave function for a session it found empty. Anything else that can stop it
+		// (a context callback, a timer, another handler) leaves members in a session whose pose and component
+		// updates are never flushed again.
+		if closeF := r.P.LookupFunc(pkgModels, "Session", "Close"); closeF != nil {
+			storeRemove := r.modelFunc("models.(*SessionStore).Remove")
+			nc := 0
+			for _, fn := range r.P.All {
+				if fn.Body == nil || fn.Lit != nil {
+					continue
+				}
+				called := map[*ast.SelectorExpr]bool{}
+				ast.Inspect(fn.Body, func(nd ast.Node) bool {
+					if call, ok := nd.(*ast.CallExpr); ok {
+						if se, ok := ast.Unparen(call.Fun).(*ast.SelectorExpr); ok {
+							called[se] = true
+						}
+					}
+					return true
+				})
+				ast.Inspect(fn.Body, func(nd ast.Node) bool {
+					se, ok := nd.(*ast.SelectorExpr)
+					if !ok || fn.Info().Uses[se.Sel] != types.Object(closeF) {
+						return true
+					}
+					nc++
+					where := fn.root().origOrSelf() == storeRemove || isLeave(fn)
+					r.Check("E6", fn.Name+":session-closed-only-where-it-ends", where && called[se], se.Pos(),
+						"%s stops the session's frame worker (Session.Close%s) outside the two places where a session ends (SessionStore.Remove, the leave function for an empty session): the members that are still in the session have their pose and component updates coalesced and never flushed", fn.Name, map[bool]string{true: "", false: " handed on as a function value"}[called[se]])
+					return true
+				})
+			}
+			r.Floor("E6", "sites that close a session", nc, 2)
+		}
 	}
 	// how Close signals the worker: a send needs room in the channel, close(ch) does not
 	signalsByClose := false
@@ -1942,6 +1976,40 @@ func (r *Run) perConnectionObjects() {
 			// (1) built per connection: inside a literal, or in a function that is not main
 			perConn := fn.Lit != nil || (fn.Obj != nil && fn.Obj.Name() != "main")
 			r.Check("J5", "cmd:handler-built-per-connection", perConn, cl.Pos(), "the realtime handler is built in %s, outside any per-connection function: all connections would share one handler", fn.Name)
+			// (3) what all connections meet in is built once, outside the per-connection function: the session
+			// store (two connections find each other's session only in a common store) and the receipt queue with
+			// its forwarder (a forwarder that ends with one connection drops the receipts it accepted)
+			definedOutside := func(x ast.Expr) bool {
+				x = ast.Unparen(x)
+				if u, isU := x.(*ast.UnaryExpr); isU && u.Op == token.AND {
+					x = ast.Unparen(u.X)
+				}
+				id, isID := x.(*ast.Ident)
+				if !isID {
+					return false
+				}
+				obj := info.Uses[id]
+				return obj != nil && (obj.Pos() < fn.Body.Pos() || obj.Pos() > fn.Body.End())
+			}
+			if perConn {
+				if sv := litField(cl, "Sessions"); sv != nil {
+					r.Check("J5", "cmd:session-store-shared", definedOutside(sv), sv.Pos(),
+						"the session store handed to a connection's handler (%s) is built in the per-connection function %s: every connection has a store of its own and no two participants can meet in a session", r.P.exprStr(sv), fn.Name)
+				}
+				if rv := litField(cl, "ReceiptChan"); rv != nil {
+					r.Check("J5", "cmd:receipt-queue-shared", definedOutside(rv), rv.Pos(),
+						"the receipt queue handed to a connection's handler (%s) is built in the per-connection function %s: its forwarder lives and ends with that connection, and receipts it accepted are dropped when the client leaves", r.P.exprStr(rv), fn.Name)
+				}
+				ast.Inspect(fn.Body, func(k ast.Node) bool {
+					if call, isCall := k.(*ast.CallExpr); isCall {
+						if g, isF := calleeObj(info, call).(*types.Func); isF && g.Name() == "HandleReceipts" && g.Pkg() != nil && g.Pkg().Path() == repoMod+"/receipt" {
+							r.Check("J5", "cmd:receipt-forwarder-started-once", false, call.Pos(),
+								"the receipt forwarder is started in the per-connection function %s: it runs on that connection's terms, and receipts that were accepted but not yet forwarded are lost when the connection ends", fn.Name)
+						}
+					}
+					return true
+				})
+			}
 			// (2) its modules are built here too
 			mv := litField(cl, "Modules")
 			if mv == nil {
